@@ -33,6 +33,12 @@ LEVEL_TEXT = (
     "field value and list item); for every request on which it answers, its answer is a well-formed cut, so folding the delivered "
     "pieces into the initial data in any parent-before-child order never overwrites or misses a target and gives the tree the same "
     "recursion builds with nothing cut out (incExec_assemble_partial, incExec_assemble_any_order, incCut_wellformed). "
+    "For every document in which no inline fragment or fragment spread carries @defer (inline fragments, named spreads, type "
+    "conditions, @skip/@include, aliases, arguments, variables, lists, interfaces/unions all allowed; refClassDoc) that tree is "
+    "proved to be exactly - keys, key order, values - the data of the specification's response (Spec.executeRequest, GraphQL s6) "
+    "to the document, and that response has no errors (incExec_assemble_ref_partial, under C02's value-layer law OpsOk): the whole "
+    "recursion skeleton of the incremental executor (collect_fields_impl with the visited map, collect_subfields, the plan of a "
+    "set without defer usages, execute_fields, complete_value) computes the specification's ExecuteSelectionSet. "
     "End-to-end: every payload stream produced by experimental_execute_incrementally under a controlled event loop "
     "(all completion orders of the harness futures up to the cap x consumer pull timing x early execution on/off) is "
     "folded by the Lean Assemble.apply and decided by the Lean clauses Spec.exact / Spec.approx against the Python "
@@ -45,7 +51,8 @@ LEVEL_NOTE = (
     "of scope) and tied by direct correspondence. The incremental executor itself is modelled denotationally for the error-free "
     "@defer-only class (Gql/Async/IncExec.lean; tied to experimental_execute_incrementally by comparing initial data and the "
     "multiset of (target path, data) pieces exactly on generated requests). Open (incExec_assemble_full): that the reference tree of "
-    "the model's cut is the specification's response to the document without @defer is checked by the driver on every generated "
+    "the model's cut is the specification's response to the document without @defer is proved for documents without @defer "
+    "(incExec_assemble_ref_partial); for documents with a live @defer it is checked by the driver on every generated "
     "case (ref=1, specerrs=0), not proved; @stream and error propagation are outside the executor model — for those the emitted "
     "pieces being a cut of the reference is what the end-to-end oracle observes on every explored run."
 )
